@@ -81,6 +81,10 @@ func (svc *indexRespService) toInternal(
 	cacheCount int,
 	useCache bool,
 ) (svcID internal.BlockedServiceID, rl *rulelist.Immutable, err error) {
+	if svc == nil {
+		return "", nil, errors.ErrNoValue
+	}
+
 	svcID, err = internal.NewBlockedServiceID(svc.ID)
 	if err != nil {
 		return "", nil, fmt.Errorf("validating id: %w", err)
